@@ -168,7 +168,7 @@ def gsu_case(kind, n, pos, dele, ins, trailing_comma, multi_tok):
 GLB = {"gsu_case": gsu_case, "__name__": "harness.c03"}
 
 
-def _gsu_cond(kind, n, multi_tok, twin=False, ins_max=1, multiline=True):
+def _gsu_cond(kind, n, multi_tok, twin=False, ins_max=1, multiline=True, fixed_deletes=None):
     npos = 2 * n + 3
     params = []
     for i in range(npos):
@@ -200,8 +200,10 @@ def _gsu_cond(kind, n, multi_tok, twin=False, ins_max=1, multiline=True):
     # a trailing comma needs room between the last element and the closing brace
     if n > 0:
         pre.append(f"(not tc) or lex_lt({last}, {P[2 + 2 * n]})")
+    if fixed_deletes is not None:
+        pre.append(" and ".join(f"d{i} == {bool(b)}" for i, b in enumerate(fixed_deletes)))
     body = f"return gsu_case({kind!r}, {n}, [{', '.join(P)}], [{', '.join(f'd{i}' for i in range(n))}], [{', '.join(f'i{i}' for i in range(n + 1))}], tc, {multi_tok})"
-    name = f"gsu_{kind}_{n}{'_mt' if multi_tok else ''}{'_i2' if ins_max == 2 else ''}{'' if multiline else '_1line'}" + ("_twin" if twin else "")
+    name = f"gsu_{kind}_{n}{'_mt' if multi_tok else ''}{'_i2' if ins_max == 2 else ''}{'' if multiline else '_1line'}" + ("_d" + "".join(str(int(b)) for b in fixed_deletes) if fixed_deletes is not None else "") + ("_twin" if twin else "")
     glb = dict(GLB)
     glb["lex_lt"] = lex_lt
     glb["lex_le"] = lex_le
@@ -220,7 +222,10 @@ def conditions(tier):
         conds.append(_gsu_cond(kind, 2, True, multiline=False))
         conds.append(_gsu_cond(kind, 2, False, ins_max=2, multiline=False))
         if not q:
-            conds.append(_gsu_cond(kind, 3, False))
+            import itertools as _it
+
+            for mask in _it.product((0, 1), repeat=3):  # multi-line layouts of 3 elements: one condition per delete mask
+                conds.append(_gsu_cond(kind, 3, False, fixed_deletes=mask))
             conds.append(_gsu_cond(kind, 4, False, multiline=False))
             conds.append(_gsu_cond(kind, 2, True))
     conds.append(_gsu_cond("Tuple", 2, False, twin=True))
